@@ -174,6 +174,7 @@ fn fifo_read_case(cx: &mut Ctx, tag: &str, data: &[u8], bursts: &[(usize, u64)],
     let (out, nsig) = exec(&op, 0, &cx.env());
     println!("##E");
     cx.last_signals = nsig;
+    cx.check_efault(&out, &op, scen);
     let _ = release_peer(feeder, &name, true);
     let _ = std::fs::remove_file(osp(&name));
     let opn = op.name();
@@ -270,6 +271,7 @@ fn fifo_write_case(cx: &mut Ctx, tag: &str, data: &[u8], bursts: &[(usize, u64)]
     let (out, nsig) = exec(&op, 0, &cx.env());
     println!("##E");
     cx.last_signals = nsig;
+    cx.check_efault(&out, &op, scen);
     let got = release_peer(reader, &name, false);
     let _ = std::fs::remove_file(osp(&name));
     let Some(got) = got else {
@@ -498,6 +500,41 @@ pub fn mode_sig(cx: &mut Ctx, budget: u64) {
             p.extend_from_slice(tail.as_bytes());
             stormy(cx, &Op::Cda { p }, true, "sig create_dir_all 12 missing");
         }
+    }
+}
+
+/// Big copies under a dense signal storm with BEGIN/END markers, meant to run under sysmon: the driver
+/// counts the copy_file_range calls that returned a partial count from the log.
+pub fn mode_sigcopy(cx: &mut Ctx, budget: u64) {
+    if !install_handler() {
+        vh::inconclusive("sigaction(SIGUSR1) failed");
+        return;
+    }
+    cx.intr = true;
+    let rabs = cx.rabs.clone();
+    std::fs::create_dir("s").unwrap();
+    std::fs::write("s/keep", b"sentinel").unwrap();
+    std::fs::create_dir("big").unwrap();
+    let mb = if cx.fs == "tmpfs" { 16 } else { 6 } << 20;
+    for rep in 0..budget.clamp(2, 40) as i64 {
+        let f = |k: &[u8]| if rep % 2 == 0 { abs_of(&rabs, k) } else { k.to_vec() };
+        std::fs::write("big/src", content_of(&mut cx.r, mb + 13 + rep as usize, false)).unwrap();
+        if rep % 3 != 0 {
+            std::fs::write("big/dst", content_of(&mut cx.r, mb + 5000, false)).unwrap();
+        }
+        cx.inject = Some((100, rep, -1, 0));
+        stormy(
+            cx,
+            &Op::Copy {
+                src: f(b"big/src"),
+                dst: f(b"big/dst"),
+                via_handle: rep % 2 == 1,
+            },
+            true,
+            "sigcopy big-copy under storm",
+        );
+        cx.inject = None;
+        let _ = std::fs::remove_file("big/dst");
     }
 }
 
